@@ -443,6 +443,34 @@ def fam_trunc(N, k):
             yield case("trunc", spec, genome, ["chunk", a, b], False, False, legs=(1,), trunc=True)
 
 
+# ---- family: embedded (realistic keys that contain, but do not start with, an identifier word) ------------------------------------------
+# the words the parser filters as identifiers (BioCantorQualifiers / reserved names, lower case as the writer emits keys)
+IDENTIFIER_WORDS = ["protein_id", "feature_collection_id", "gene_name", "gene_biotype", "feature_collection_type", "transcript_biotype",
+                    "feature_colletion_type", "locus_tag", "transcript_type", "feature_id", "feature_name", "gene_type", "parent", "gene_id",
+                    "name", "feature_collection_name", "transcript_name", "id", "transcript_id", "gene_symbol", "product", "feature_type"]
+EMBEDDED_KEYS = ["old_locus_tag", "evidence", "grandparent_assembly", "my_product_note", "valid", "rename", "pseudo_gene_idx",
+                 "subfeature_typex", "byproducts", "hostname", "midpoint", "unnamed", "alt_transcript_names", "my_gene_symbolic"]
+
+
+def embedded_keys():
+    keys = ["x_" + w for w in IDENTIFIER_WORDS] + EMBEDDED_KEYS
+    # a key that STARTS with an identifier word is dropped by the unchanged parser (prefix match); that is outside the statement
+    assert not any(k.startswith(w) for k in keys for w in IDENTIFIER_WORDS), "embedded key starts with an identifier word"
+    return keys
+
+
+def fam_embedded():
+    """every key on the gene, on the coding transcript, and on both (different values); all legs"""
+    genome = GENOME64[:12]
+    for key in embedded_keys():
+        for where in ("gene", "tx_cds", "both"):
+            t0 = tx_spec(((1, 4), (6, 10)), "+", (1, 7), 0, tid="t0", sym="ts0", pid="p0", product="prod0",
+                         quals={key: ["tval"]} if where in ("tx_cds", "both") else None)
+            t1 = tx_spec(((1, 10),), "-", None, tid="t1", sym="ts1", ttype="protein_coding")
+            g = gene_spec([t0, t1], gtype="protein_coding", quals={key: ["gval"]} if where in ("gene", "both") else None)
+            yield case("embedded", coll_spec([g]), genome, "chrom", True, True, string=key, pos=where, role="key")
+
+
 PATTERNS_QUICK = [(1,), (2,), (1, 2, 3), (2, 1), (3, 1, 2)]
 PATTERNS_ALL = [p for n in (1, 2, 3) for p in itertools.product((1, 2, 3), repeat=n)]
 
@@ -467,6 +495,7 @@ def world(tier):
         yield from fam_long(PATTERNS_ALL, "ends")
         yield from fam_trunc(7, 3)
     yield from fam_shared()
+    yield from fam_embedded()
     yield from fam_reserved()
     yield from fam_ids()
     yield from fam_fasta()
@@ -475,7 +504,7 @@ def world(tier):
 
 def describe(tier):
     tail = ("shared: the same qualifier key on gene and transcript(s) / feature collection and feature with all pairs of value sets of size "
-            "1-2; " + ("long: 10-12 CDS blocks, 5 exon-length patterns, both strands, start frames 0-2; trunc: layouts N=5 k<=2 x every "
+            "1-2; embedded: 36 realistic keys containing (not starting with) an identifier word, on gene / transcript / both; " + ("long: 10-12 CDS blocks, 5 exon-length patterns, both strands, start frames 0-2; trunc: layouts N=5 k<=2 x every "
                        "3'-truncating chunk window (leg 1: rows and phase); " if tier == "quick" else
                        "long: 10-12 CDS blocks, all 39 exon-length patterns of period <=3, 3 CDS placements, both strands, start frames 0-2; "
                        "trunc: layouts N=7 k<=3 x every 3'-truncating chunk window (leg 1: rows and phase); ") +
